@@ -5,6 +5,7 @@ import HappyProofs.C12.MPWitness
 import HappyProofs.C12.MPCommit
 import HappyProofs.C12.MPLeader
 import HappyProofs.C12.MPDeposed
+import HappyProofs.C12.MPSetup
 import HappyProofs.C12.ElWitness
 import HappyProofs.C12.ElStale
 import HappyProofs.C12.ElStaticRun
